@@ -367,32 +367,57 @@ def z_int(x=0, base=None):
     if isinstance(x, (SStr, SBytes)):
         if base not in (None, 10):
             raise ZXError('int(symbolic str, base=%r)' % base)
-        els = x.els
-        if isinstance(x, SBytes):
-            els = [e if isinstance(e, int) else z3.ZeroExt(CW - 8, e) for e in els]
-        if not els:
-            raise ValueError("invalid literal for int() with base 10: ''")
-        W = cur().W
-        total = 0
-        digs = []
-        for c in els:
-            if _dec(_rng(c, 48, 57)):
-                d = c - 48 if isinstance(c, int) else mkint(z3.ZeroExt(W - CW, c) - 48, 0, 9)
-                total = total * 10 + d
-                digs.append(c)
-                continue
-            # characters int() may also accept (sign, whitespace, underscore, non-ASCII digits) are
-            # outside the modelled domain -> loud, never silently mis-modelled
-            if _dec(_in_ranges(c, [(9, 13), (28, 32), (43, 43), (45, 45), (95, 95), (128, 0x10FFFF)])):
-                raise ZXError('int(str) with sign/space/underscore/non-ASCII characters is outside the modelled domain')
-            raise ValueError('invalid literal for int() with base 10')
-        if isinstance(total, SInt):
-            lead0 = digs[0] == 48 if isinstance(digs[0], int) else cur().feasible(digs[0] == 48)
-            total.digits = list(digs) if (len(digs) == 1 or not lead0) else None
-        return total
+        return _parse_int(x)
     if base is None:
         return builtins.int(x)
     return builtins.int(x, base)
+
+
+def _parse_int(x):
+    """int(str) for a symbolic str/bytes, CPython grammar: [ws] [sign] digit ('_'? digit)* [ws]  (ASCII; a non-ASCII char is outside
+    the modelled domain and raises ZXError, never a silent mis-model)"""
+    err = ValueError('invalid literal for int() with base 10')
+    if isinstance(x, SBytes):
+        x = mkstr([e if isinstance(e, int) else z3.ZeroExt(CW - 8, e) for e in x.els])
+        if isinstance(x, str):
+            return builtins.int(x)
+    for c in x.els:
+        if not isinstance(c, int) and cur().feasible(z3.UGE(c, 128)):
+            if cur().decide(z3.UGE(c, 128)):
+                raise ZXError('int(str) with non-ASCII characters is outside the modelled domain')
+        elif isinstance(c, int) and c >= 128:
+            raise ZXError('int(str) with non-ASCII characters is outside the modelled domain')
+    t = x.strip()
+    els = to_els(t)
+    if not els:
+        raise err
+    neg = False
+    if _dec(_in_ranges(els[0], [(43, 43), (45, 45)])):
+        neg = _dec(els[0] == 45 if isinstance(els[0], int) else els[0] == 45)
+        els = els[1:]
+    if not els:
+        raise err
+    W = cur().W
+    total, digs, prev_digit = 0, [], False
+    for i, c in enumerate(els):
+        if _dec(_rng(c, 48, 57)):
+            d = c - 48 if isinstance(c, int) else mkint(z3.ZeroExt(W - CW, c) - 48, 0, 9)
+            total = total * 10 + d
+            digs.append(c)
+            prev_digit = True
+            continue
+        if prev_digit and i + 1 < len(els) and _dec(c == 95 if isinstance(c, int) else c == 95):
+            prev_digit = False
+            continue
+        raise err
+    if not prev_digit:
+        raise err
+    if neg:
+        total = -total
+    elif isinstance(total, SInt) and len(digs) == len(x.els):
+        lead0 = (digs[0] == 48) if isinstance(digs[0], int) else cur().feasible(digs[0] == 48)
+        total.digits = list(digs) if (len(digs) == 1 or not lead0) else None
+    return total
 
 
 def _is_char(c, v):
